@@ -103,6 +103,9 @@ def oracle(ctx: Ctx) -> None:
     unclosed = ["---\nfoo: bar\n", "---\nfoo: bar", "---\n", "---", "---\na\n\nb: - x\n# h\n", "\n---\nx: 1\n", "---\r\nk: v\r\n",
                 "---\nk: v\n\n\n", " --- \nk\n", "---\nx y\n", "---\na\x1cb\n",
                 "---\na --- b\n", "---\n# ---- x ----\n", "---\n----\n", "---\nk: '---'\n", "---\n--- x\ny\n", "---\n   \nk\n", "---\nk\r\r\n"]
+    # a '---' set off inside a line by characters that only str.splitlines() takes for line ends: still ONE line, not a delimiter
+    for sep in ("\u2028", "\u2029", "\x0b", "\x0c", "\x1c", "\x1d", "\x1e", "\x85"):
+        unclosed += [f"---\nfoo{sep}---{sep}bar\n", f"---\nfoo{sep}---\nmore\n", f"---\nk: v\n---{sep}x\n"]
     for u in unclosed:
         for o in OPTSETS:
             case = {"unclosed": u, "opts": o}
